@@ -24,7 +24,7 @@ func (ial *IndentAwareLexer) NextToken() antlr.Token {
 	}
 	if ial.GetInputStream().Size() == 0 {
 		ial.hitEOF = true
-		return antlr.NewCommonToken(nil, antlr.TokenEOF, antlr.TokenDefaultChannel, -1, -1)
+		return antlr.NewCommonToken(ial.GetTokenSourceCharStreamPair(), antlr.TokenEOF, antlr.TokenDefaultChannel, -1, -1)
 	}
 
 	ial.checkNextToken()
